@@ -16,6 +16,8 @@ func genLifePlan(seed uint64, thorough bool) *Plan {
 	g := newGen(seed, 13)
 	p := &Plan{Prop: "C20", Seed: seed, Knobs: Knobs{RandSeed: int64(seed), MaxSteps: 120000, IdleCap: 3000, Persist: false}}
 	p.Knobs.Sticky = []int{0, 40, 80}[g.r.IntN(3)]
+	p.Knobs.Stall = []int{0, 20, 20, 40}[g.r.IntN(4)]
+	p.Knobs.PCT = []int{0, 0, 0, 2, 3}[g.r.IntN(5)]
 	p.Knobs.Frag = g.chance(3)
 	second := g.chance(2)
 	cycles := 1 + g.r.IntN(3)
